@@ -25,7 +25,7 @@ RULE = ('one call of a separation helper per case on real Stream / MultiStream o
         'value the numeric stage returned is recorded and handed to the model, with many cases having every K on one side of 1 '
         'and forced top/bottom chemicals; phase_fraction is also called directly with 1-3 chemicals and forced fractions. '
         'mix_and_split / mix_and_split_with_moisture_content also get a bottom outlet on another property package (superset, '
-        'reordered superset, subset) that is usually reused (already holds flows) and often receives nothing. Compared: every outlet / '
+        'reordered superset, subset) that is usually reused (already holds flows) and often receives nothing. State kept between calls: the lle / vle multi_stream argument is usually one that still holds flows of an earlier call, and the equilibrium stub is in most cases relative (it splits whatever material the working stream holds, i.e. a conserving equilibrium; the rows it saw are compared with the rows of the model); phase_split feeds carry a history (per-phase views fetched, an earlier split, flows rewritten, phase set changed; half of the histories are view/split -> phases -> set) executed on the real MultiStream and on the cached-view state machine. Compared: every outlet / '
         'mutated inlet flow per phase (1e-9 relative), returned phase fraction, exception class, number of infeasibility '
         'warnings, phases of the outlets. non-trivial = the call returned normally and moved material, or took an '
         'infeasibility / clipping branch; distinct = distinct case hash')
@@ -398,14 +398,24 @@ def gen_phase_split(rng):
     if multi and rng.random() < 0.7:
         # history of the feed object before the split: per-phase views taken, an earlier split, flows rewritten, phases changed
         cur = {p: list(r) for p, r in zip(phases, rows)}
-        for _ in range(rng.randint(1, 5)):
-            kind = rng.choice(['view', 'view', 'split', 'set', 'set', 'phases', 'phases', 'phases'])
+        # half of the histories follow the life of a reused flowsheet stream: views are taken (or a split is run),
+        # then the phase set changes, then new flows are written; the rest is random
+        script = []
+        if rng.random() < 0.5:
+            script = [rng.choice(['view', 'split']), 'phases', 'set'] + ([rng.choice(['view', 'set', 'phases'])] if rng.random() < 0.4 else [])
+            if rng.random() < 0.3:
+                script.insert(0, rng.choice(['set', 'view']))
+        watched = None
+        for step in range(len(script) if script else rng.randint(1, 5)):
+            kind = script[step] if script else rng.choice(['view', 'view', 'split', 'set', 'set', 'phases', 'phases', 'phases'])
             if kind == 'view':
-                hist.append(['view', rng.choice(sorted(cur))])
+                watched = rng.choice(sorted(cur))
+                hist.append(['view', watched])
             elif kind == 'split':
                 hist.append(['split'])
             elif kind == 'set':
-                p = rng.choice(sorted(cur)); v = flows(rng) if rng.random() < 0.85 else [0.] * N
+                p = watched if (watched in cur and rng.random() < 0.7) else rng.choice(sorted(cur))
+                v = flows(rng) if rng.random() < 0.85 else [0.] * N
                 cur[p] = v; hist.append(['set', p, v])
             else:
                 absent = [p for p in 'Lgls' if p not in cur]
@@ -413,7 +423,7 @@ def gen_phase_split(rng):
                 if absent and (r2 < 0.5 or len(cur) == 2):
                     new = dict(cur); new[rng.choice(absent)] = [0.] * N            # add a phase
                 elif len(cur) > 2:
-                    drop = rng.choice(sorted(cur))
+                    drop = rng.choice([p for p in sorted(cur) if p != watched] or sorted(cur))
                     new = {p: v for p, v in cur.items() if p != drop}
                     if any(cur[drop]):
                         other = {'l': 'L', 'L': 'l'}.get(drop)
@@ -1266,12 +1276,16 @@ def oracle(case):
                     return 'lle: the only non-empty phase went to the bottom outlet'
         return None
     if fn == 'phase_split':
-        if len(case['outs0']) != len(case['phases']):
+        if out.get('hist_err'):
+            return None           # the history itself was rejected (e.g. a non-empty phase dropped): no split took place
+        if len(case['outs0']) != len(out['order']):
             return None if err == 'RuntimeError' else f'phase_split: {err} for a wrong number of outlets'
         if err:
             return f'phase_split: raised {err}'
         if out['outs'] != out['rows'] or out['out_phases'] != out['order']:
-            return f'phase_split: outlets {out["outs"]} ({out["out_phases"]}) are not the phases {out["rows"]} ({out["order"]})'
+            hist = f' after the history {case["hist"]}' if case.get('hist') else ''
+            return (f'phase_split: outlets {out["outs"]} ({out["out_phases"]}) are not the phases of the feed '
+                    f'{out["rows"]} ({out["order"]}){hist}')
         return None
     if fn == 'splits':
         if err:
@@ -1358,6 +1372,13 @@ CORPUS = [   # minimised inputs of the defects found while building this check (
      'bot0': [0., 7.5, 1., 0., 0., 0., 3.], 'pkg': 'sup'},
     {'fn': 'mix_split', 'ins': [[0., 10., 0., 0., 0., 0.]], 'split': [0.5, 1., 1., 0.25, 1., 1.], 'alias': None, 'top0': Z6,
      'bot0': [0., 5., 0., 0., 1., 0., 0.], 'pkg': 'perm'},
+    # a feed whose per-phase view was cached before its phase set changed and new flows were written
+    {'fn': 'phase_split', 'phases': 'gl', 'rows': [[1., 0., 0., 0., 0., 0.], [0., 2., 0., 0., 0., 0.]], 'multi': True,
+     'hist': [['view', 'l'], ['phases', 'Lgl'], ['set', 'l', [0., 3., 1., 0., 0., 0.]]], 'outs0': [Z6, Z6, Z6]},
+    # a caller-owned multi_stream that still holds the previous result, with an equilibrium that conserves what it is given
+    {'fn': 'vle', 'feed': [2., 4., 0., 0., 0., 0.], 'feed_phase': 'l', 'g': [1., 1., 0., 0., 0., 0.], 'l': [1., 3., 0., 0., 0., 0.],
+     'ms': 'lg', 'top0': Z6, 'bot0': Z6, 'spec': {'V': 0.5, 'P': 101325.}, 'eq_mode': 'rel', 'split': [0.5, 0.25, 0., 0., 0., 0.],
+     'ms0': {'l': [1., 0., 0., 0., 0., 0.], 'g': [0., 2., 0., 8., 0., 0.]}},
     {'fn': 'balance', 'ids': [0, 1], 'vin': [[1., 1., 0., 0., 0., 0.], [0., 1., 2., 0., 0., 0.]], 'cin': [[4., 0., 0., 1., 0., 0.]],
      'cout': [[16., 8., 2., 0., 0., 0.], [0., 4., 0., 0., 1., 0.]], 'is_exact': False, 'balance': 'flow', 'singular': False},
 ]
